@@ -32,6 +32,9 @@ def program_cases(thorough):
     out += [('C13', s.case) for s in c13.gen_buffers(False)[:6]]
     out += [('C16', p.case) for p in c16.gen((1,), (1, 3), [(3, 5)], c16.SETTINGS, ['redef_add', 'fill_rec'], (0, 1))]
     out += [('C11', c11.mkcase(p, np)) for p in c11.PROGRAMS for np in (1, 2)]
+    # name-table histories (define, rename, add, delete and re-add under the same name, look up) of C10
+    import checks.c10 as c10
+    out += [('C10', p.case) for p in c10.meta_programs()]
     # valid but unusual files (C04): one record variable of every type, variables with 17-30 dimensions
     import checks.c04 as c04
     for ver in (1, 5):
@@ -198,7 +201,7 @@ def main(tier=None):
     ck.cov['evaluations'] = nprog + len(mal)
     ck.cov['programs_under_sanitizers'] = nprog; ck.cov['malformed_inputs'] = len(mal); ck.cov['malformed_accepted_and_consistent'] = accepted
     ck.cov['distinct_nontrivial'] = len(set(x[0].ops[-6] if len(x[0].ops) > 6 else x[0].name for x in mal))
-    ck.cov['rule'] = ('(a) the quick-tier cases of C01, C02, C03, C06, C08, C09, C11, C12, C13, C16 (thorough: + C15, full C01 layouts) plus valid unusual files of C04, request queues of 1023 / 1024 / 1025 / 2048 pending sub-requests, and pairs of interleaved strided nonblocking requests (every stride vector in {1,2}^n on fixed and record variables of 2-3 dimensions, iput / iget / bput, one wait_all) executed on the library built with -fsanitize=address,undefined: any report or signal is a violation keyed by '
+    ck.cov['rule'] = ('(a) the quick-tier cases of C01, C02, C03, C06, C08, C09, C10 (name-table histories), C11, C12, C13, C16 (thorough: + C15, full C01 layouts) plus valid unusual files of C04, request queues of 1023 / 1024 / 1025 / 2048 pending sub-requests, and pairs of interleaved strided nonblocking requests (every stride vector in {1,2}^n on fixed and record variables of 2-3 dimensions, iput / iget / bput, one wait_all) executed on the library built with -fsanitize=address,undefined: any report or signal is a violation keyed by '
                       'error kind and innermost /repo/src frame. (b) 9 encoder-made seed files (3 formats x minimal / dims+atts+vars / record file): every truncation length, every 4-byte header word x 14 extreme values, every 8-byte window x 7 values'
                       '%s, opened with header chunk default/36%s, followed by a full inquiry sweep and reads: no report, no signal, <= 5 s and <= 256 MiB per input, open fails with a netCDF error or the metadata is self-consistent' % (
                           ', all pairs of 4-byte substitutions for the minimal seeds' if thorough else '', '/64' if thorough else ''))
